@@ -15,8 +15,13 @@ RULE = ('generated dense KS/phy source directories (tens of spikes, 3-8 channels
         'last template without spikes, probe table none/constant/two/three probes (Merger-like channel maps), shanks, '
         'KSLabel and other tsv files, channel labels, cluster probes/shanks, drift files, temp_wh.dat, earlier subset '
         'files, (n,) vs (n,1) vectors, id/time/channel-map dtypes, ids up to 300, params.py present/absent; labels '
-        '{"", probe00, imec1, a.b}; unit factors {1, 2.5}; targets: fresh directory or the source directory under five '
-        'spellings (same path, /., /../src, symlink, relative). Corpus first, then every pair of values of the main axes, '
+        '{"", probe00, imec1} plus 32 labels that collide with the written names (every ALF attribute and object name: '
+        'templates, clusters, amps, times, ...; npy, csv; prefixes/suffixes and dotted combinations: temp, plates, '
+        'spikes.times, times.npy, x.amps, ...); unit factors {1, 2.5}; targets: a fresh directory under six spellings '
+        '(new, existing empty, through a symlink, <src>/../out, another directory with the same last component, relative) '
+        'or the source directory under 14 spellings (same path, Path object, /., trailing /, other/../src, <src>/sub/.. '
+        'with and without the sub-directory, symlink, chain of symlinks, symlinked parent, <src>/self -> ., relative, '
+        'relative ../src, relative .). Corpus first, then every pair of values of the main axes, '
         'then seeded random. Non-trivial = conversion ran to completion (or was refused for the same directory); '
         'distinct = distinct abstract input.')
 EXHAUSTIVE = {'quick': False, 'thorough': False}
@@ -43,7 +48,16 @@ ASSUMES = ['source = dense KS/phy-named directory with amplitudes.npy, consisten
            'fresh (non-existing or empty) output directory']
 TIMEOUT = {'quick': 60, 'thorough': 120}
 
-SAME = ['same', 'same_dot', 'same_dotdot', 'same_symlink', 'same_rel']
+# spellings of the source directory as target (all must be refused) and of a fresh target (none may be refused)
+SAME = ['same', 'same_pathobj', 'same_dot', 'same_slash', 'same_dotdot', 'same_sub_dotdot', 'same_sub_missing',
+        'same_symlink', 'same_link_chain', 'same_parent_link', 'same_inner_link', 'same_rel', 'same_rel_dotdot', 'same_rel_dot']
+FRESH_ALT = ['fresh_empty', 'fresh_symlink', 'fresh_dotdot', 'fresh_samename', 'fresh_rel']
+# labels that collide with what the written names are made of: attribute names, object names, extensions, and
+# prefixes / suffixes / dotted combinations of them ("inserted into EVERY file" must hold for these too)
+LABELS_ATTR = ['templates', 'clusters', 'amps', 'times', 'samples', 'depths', 'channels', 'spikes', 'waveforms',
+               'waveformsChannels', 'uuids', 'rawInd', 'localCoordinates', 'probes', 'peakToTrough', 'labels', 'shanks']
+LABELS_ODD = ['npy', 'csv', 'temp', 'plates', 'amp', 's', 'spikes.times', 'times.npy', 'clusters.amps', 'amps.x', 'x.amps',
+              'npy.npy', 'probe00.templates', 'templates.probe00', 'a.b']
 
 
 # ---- generator ------------------------------------------------------------------------------------------
@@ -69,7 +83,22 @@ CORPUS = [
     dict(label='a.b', raw=False), dict(label='imec1', whitening='tri'),
     dict(target='same'), dict(target='same_dot'), dict(target='same_dotdot'), dict(target='same_symlink', temp_wh=True, raw=True),
     dict(target='same_rel'),
+    # seeded change C13-m1 (guard on absolute() instead of resolve()): <src>/sub/.. and links, on directories where
+    # a conversion that is NOT refused would visibly write (raw data: subset files; temp_wh.dat: deletion)
+    dict(target='same_sub_dotdot', temp_wh=True, raw=True, label='probe00'), dict(target='same_sub_dotdot', raw=False, params_py=False),
+    dict(target='same_symlink', raw=False, params_py=False), dict(target='same_dotdot', raw=False, params_py=False, temp_wh=True),
+    dict(target='same_link_chain', params_py=False), dict(target='same_parent_link', temp_wh=True), dict(target='same_inner_link', params_py=False),
+    dict(target='same_sub_missing'), dict(target='same_slash'), dict(target='same_pathobj'), dict(target='same_rel_dotdot', params_py=False),
+    dict(target='same_rel_dot', label='probe00'),
+    # ... and targets that only look like the source directory must NOT be refused
+    dict(target='fresh_empty'), dict(target='fresh_symlink', label='probe00'), dict(target='fresh_dotdot', raw=True),
+    dict(target='fresh_samename', label='probe00'), dict(target='fresh_rel', params_py=False),
 ]
+# seeded change C13-m3 (files whose stem already ends with .<label> skipped): every colliding label once, on small
+# directories, in the quick tier as well
+CORPUS += [dict(label=L, raw=False, n_spikes=4, features='no', curated=c, cluster_probes=(i % 3 == 0), labels=(i % 4 == 0),
+                kslabel=(i % 2 == 0))
+           for i, (L, c) in enumerate(zip(LABELS_ATTR + LABELS_ODD, ['no', 'ops', 'same_file', 'nogap'] * 20))]
 
 AXES = [
     ('raw', [False, True]), ('features', ['no', 'all', 'subset']), ('curated', ['no', 'ops', 'nogap', 'same_file']),
@@ -118,12 +147,15 @@ def generate(tier, rng):
                 cases.append({'kind': 'convert', 'inp': D13.gen(rng, **p)})
     for _ in range(n_rand):
         force = {}
-        if rng.random() < 0.08:
+        u = rng.random()
+        if u < 0.10:
             force['target'] = rng.choice(SAME)
+        elif u < 0.15:
+            force['target'] = rng.choice(FRESH_ALT)
         if rng.random() < 0.05:
             force['n_channels'] = rng.choice([12, 13, 14])
-        if rng.random() < 0.03:
-            force['label'] = 'a.b'
+        if rng.random() < 0.15:
+            force['label'] = rng.choice(LABELS_ATTR + LABELS_ODD)
         cases.append({'kind': 'convert', 'inp': D13.gen(rng, **force)})
     return cases
 
@@ -132,6 +164,75 @@ def generate(tier, rng):
 
 def _ta(x):
     return D.tok_array(x)
+
+
+def _place_target(t, d, src):
+    """(path handed to convert(), directory in which a completed export is to be found).  Spellings of the SOURCE
+    directory (same*) and of a fresh target (fresh*).  Entries that a spelling needs inside the source directory
+    (same_sub_dotdot, same_inner_link) are created by _prepare_source BEFORE the source is loaded and recorded."""
+    out = os.path.join(d, 'out')
+    if t == 'fresh':
+        return out, out
+    if t == 'fresh_empty':                     # an existing, empty directory
+        os.mkdir(out)
+        return out, out
+    if t == 'fresh_symlink':                   # a link to an empty directory elsewhere
+        os.mkdir(os.path.join(d, 'realout'))
+        os.symlink(os.path.join(d, 'realout'), out)
+        return out, out
+    if t == 'fresh_dotdot':                    # passes through the source directory, ends elsewhere
+        return os.path.join(src, '..', 'out'), out
+    if t == 'fresh_samename':                  # same last component as the source, another directory
+        os.mkdir(os.path.join(d, 'other'))
+        return os.path.join(d, 'other', 'src'), os.path.join(d, 'other', 'src')
+    if t == 'fresh_rel':
+        os.chdir(d)
+        return 'out', out
+    if t == 'same':
+        return src, src
+    if t == 'same_pathobj':
+        from pathlib import Path
+        return Path(src), src
+    if t == 'same_dot':
+        return src + os.sep + '.', src
+    if t == 'same_slash':
+        return src + os.sep, src
+    if t == 'same_dotdot':
+        os.mkdir(os.path.join(d, 'other'))
+        return os.path.join(d, 'other', '..', 'src'), src
+    if t == 'same_sub_dotdot':                 # <src>/sub/.. with an existing sub-directory
+        return os.path.join(src, 'sub', '..'), src
+    if t == 'same_sub_missing':                # <src>/nosuch/.. (Path.resolve() is not strict)
+        return os.path.join(src, 'nosuch', '..'), src
+    if t == 'same_symlink':
+        os.symlink(src, os.path.join(d, 'link'))
+        return os.path.join(d, 'link'), src
+    if t == 'same_link_chain':                 # link2 -> link -> src, link2 relative
+        os.symlink(src, os.path.join(d, 'link'))
+        os.symlink('link', os.path.join(d, 'link2'))
+        return os.path.join(d, 'link2'), src
+    if t == 'same_parent_link':                # a link to the PARENT directory, then /src
+        os.symlink(d, os.path.join(d, 'up'))
+        return os.path.join(d, 'up', 'src'), src
+    if t == 'same_inner_link':                 # <src>/self -> .
+        return os.path.join(src, 'self'), src
+    if t == 'same_rel':
+        os.chdir(d)
+        return 'src', src
+    if t == 'same_rel_dotdot':
+        os.chdir(src)
+        return os.path.join('..', 'src'), src
+    if t == 'same_rel_dot':
+        os.chdir(src)
+        return '.', src
+    raise ValueError(t)
+
+
+def _prepare_source(t, src):
+    if t == 'same_sub_dotdot':
+        os.mkdir(os.path.join(src, 'sub'))
+    elif t == 'same_inner_link':
+        os.symlink('.', os.path.join(src, 'self'))
 
 
 def run_case(case):
@@ -143,35 +244,23 @@ def run_case(case):
     d = tempfile.mkdtemp(prefix='c13_', dir=os.environ.get('VT_WORK') or None)
     d = os.path.realpath(d)
     cwd = os.getcwd()
+    m = m2 = None
     try:
         src = os.path.join(d, 'src')
         kw = D.materialise(ds, src)
         if not inp['params_py']:
             os.remove(os.path.join(src, 'params.py'))
+        t = inp['target']
+        fresh = t.startswith('fresh')
+        _prepare_source(t, src)
+        # a crash of the source load is reported by the pool as a crash of the case: encode() then falls back on
+        # the static file list, which Corr.norm_src completes with what the loader model says the load creates
         m = TemplateModel(**kw)
         has_raw = m.traces is not None
         npy0, other0, hashes0 = D13.snapshot(src)
-        t = inp['target']
-        out = os.path.join(d, 'out')
-        if t == 'fresh':
-            target = out
-        elif t == 'same':
-            target = src
-        elif t == 'same_dot':
-            target = src + os.sep + '.'
-        elif t == 'same_dotdot':
-            os.mkdir(os.path.join(d, 'other'))
-            target = os.path.join(d, 'other', '..', 'src')
-        elif t == 'same_symlink':
-            target = os.path.join(d, 'link')
-            os.symlink(src, target)
-        elif t == 'same_rel':
-            os.chdir(d)
-            target = 'src'
-        else:
-            raise ValueError(t)
+        target, out = _place_target(t, d, src)
         top0 = sorted(os.listdir(d))
-        outcome, m2, info = 'converted', None, ''
+        outcome, info = 'converted', ''
         try:
             m2 = EphysAlfCreator(m).convert(target, label=inp['label'], ampfactor=inp['factor'])
         except IOError as e:
@@ -184,18 +273,29 @@ def run_case(case):
             fr = traceback.extract_tb(e.__traceback__)[-1]
             outcome, info = 'crash', '%s: %s @ %s:%d' % (type(e).__name__, str(e)[:160], os.path.basename(fr.filename), fr.lineno)
         os.chdir(cwd)
-        npy1, other1, hashes1 = D13.snapshot(src)
+        # what happened to the source directory, whatever the outcome
+        npy1, other1, hashes1 = D13.snapshot(src, load=False)
         obs = {'outcome': outcome, 'info': info, 'has_raw': has_raw, 'src_npy': sorted(npy0.items())}
+        obs['changed'] = sorted(k for k in hashes0 if k in hashes1 and hashes1[k] != hashes0[k])
+        obs['deleted'] = sorted(k for k in hashes0 if k not in hashes1)
+        obs['new_names'] = sorted(k for k in hashes1 if k not in hashes0)
         shas = set(other0.values())
         if outcome == 'refused':
             obs['untouched'] = hashes1 == hashes0 and sorted(os.listdir(d)) == top0
+        elif not fresh:
+            # the source directory was named as the target and convert() did not refuse: no output directory to look at
+            obs['outcome'], obs['info'] = 'notrefused', (info or 'convert() returned')
         out_npy, out_other = {}, {}
-        if outcome == 'converted':
-            out_npy, out_other, _ = D13.snapshot(out)
+        if obs['outcome'] == 'converted':
+            try:
+                out_npy, out_other, _ = D13.snapshot(out)
+                npy1, other1, hashes1 = D13.snapshot(src)
+            except Exception as e:  # noqa
+                obs['outcome'], obs['info'] = 'crash', 'reading the directories after convert(): %s: %s' % (type(e).__name__, str(e)[:160])
             shas |= set(out_other.values())
         ids = {h: i for i, h in enumerate(sorted(shas))}
         obs['src_others'] = sorted((k, ids[v]) for k, v in other0.items())
-        if outcome == 'converted':
+        if obs['outcome'] == 'converted':
             txt = []
             for k, v in sorted(out_other.items()):
                 if k.startswith('clusters.uuids'):
@@ -205,8 +305,6 @@ def run_case(case):
                     txt.append((k, ('copy', ids[v])))
             obs['out_npy'] = sorted(out_npy.items())
             obs['out_txt'] = txt
-            obs['changed'] = sorted(k for k in hashes0 if k in hashes1 and hashes1[k] != hashes0[k])
-            obs['deleted'] = sorted(k for k in hashes0 if k not in hashes1)
             obs['new'] = sorted((k, v) for k, v in npy1.items() if k not in hashes0)
             obs['new_other'] = sorted(k for k in other1 if k not in hashes0)
             if m2 is None:
@@ -216,15 +314,18 @@ def run_case(case):
                                        dtype=kw['dtype'], offset=kw['offset'])
                 except Exception as e:  # noqa
                     obs['outcome'], obs['info'] = 'crash', 'read-back %s: %s' % (type(e).__name__, str(e)[:160])
-                    m.close()
                     return ('c13', obs)
             obs['rl'] = {'samples': _ta(m2.spike_samples), 'times': _ta(m2.spike_times), 'sclusters': _ta(m2.spike_clusters),
                          'stemplates': _ta(m2.spike_templates), 'cmap': _ta(m2.channel_mapping), 'pos': _ta(m2.channel_positions)}
-            m2.close()
-        m.close()
         return ('c13', obs)
     finally:
         os.chdir(cwd)
+        for x in (m2, m):
+            try:
+                if x is not None:
+                    x.close()
+            except Exception:  # noqa
+                pass
         shutil.rmtree(d, ignore_errors=True)
 
 
@@ -243,7 +344,7 @@ def _text(t):
 def encode(case, obs):
     inp = case['inp']
     ds = inp['ds']
-    same = inp['target'] != 'fresh'
+    same = not inp['target'].startswith('fresh')
     rate = D.coq_tok(D.tok(float(ds['params']['sample_rate'])))
     ncd = q.opt(ds['params'].get('n_channels_dat'))
     if obs[0] != 'c13':
@@ -263,6 +364,8 @@ def encode(case, obs):
         return cin, 'ObsCrash'
     if o['outcome'] == 'refused':
         return cin, '(ObsRefused %s)' % q.b(o['untouched'])
+    if o['outcome'] == 'notrefused':
+        return cin, '(ObsNotRefused %s %s %s)' % (q.lst(o['changed'], q.s), q.lst(o['deleted'], q.s), q.lst(o['new_names'], q.s))
     r = o['rl']
     A = D.coq_arr
     rl = '(mkrl %s %s %s %s %s %s)' % (A(r['samples']), A(r['times']), A(r['sclusters']), A(r['stemplates']),
@@ -346,17 +449,23 @@ def repro(case):
     return ("import sys, os, tempfile; sys.path[:0] = ['/verif/harness', os.environ.get('PHYLIB_REPO', '/repo')]\n"
             "from vt import npshim, datasets as D; npshim.setup_process()\n"
             "import numpy as np\n"
+            "from vt.props import c13\n"
             "from phylib.io.model import TemplateModel\nfrom phylib.io.alf import EphysAlfCreator\n"
             "inp = %r\n"
-            "d = tempfile.mkdtemp(); src = os.path.join(d, 'src'); kw = D.materialise(inp['ds'], src)\n"
+            "d = os.path.realpath(tempfile.mkdtemp()); src = os.path.join(d, 'src'); kw = D.materialise(inp['ds'], src)\n"
             "if not inp['params_py']: os.remove(os.path.join(src, 'params.py'))\n"
-            "m = TemplateModel(**kw); before = D.listing(src)\n"
-            "target = os.path.join(d, 'out') if inp['target'] == 'fresh' else src   # other spellings: see harness/vt/props/c13.py\n"
-            "m2 = EphysAlfCreator(m).convert(target, label=inp['label'], ampfactor=inp['factor'])\n"
-            "after = D.listing(src)\n"
-            "print('source: changed', [k for k in before if after.get(k) != before[k]], 'new', sorted(set(after) - set(before)))\n"
-            "for k in sorted(os.listdir(target)):\n"
-            "    print(k, (lambda a: (a.dtype, a.shape))(np.load(os.path.join(target, k))) if k.endswith('.npy') else '')\n"
+            "c13._prepare_source(inp['target'], src)        # <src>/sub or <src>/self for those spellings of the target\n"
+            "m = TemplateModel(**kw); before = D.listing(src); cwd = os.getcwd()\n"
+            "target, out = c13._place_target(inp['target'], d, src)   # the path given to convert(), where the export is found\n"
+            "print('convert(', repr(target), ') of', src)\n"
+            "try:\n"
+            "    m2 = EphysAlfCreator(m).convert(target, label=inp['label'], ampfactor=inp['factor'])\n"
+            "except Exception as e:\n"
+            "    m2 = None; print('convert raised', type(e).__name__, e)\n"
+            "os.chdir(cwd); after = D.listing(src)\n"
+            "print('source: changed', [k for k in before if k in after and after[k] != before[k]], 'deleted', sorted(set(before) - set(after)), 'new', sorted(set(after) - set(before)))\n"
+            "for k in (sorted(os.listdir(out)) if out != src and os.path.isdir(out) else []):\n"
+            "    print(k, (lambda a: (a.dtype, a.shape))(np.load(os.path.join(out, k))) if k.endswith('.npy') else '')\n"
             "print('source ', m.spike_samples, m.spike_times, m.spike_clusters, m.spike_templates, m.channel_mapping)\n"
             "if m2 is not None: print('reload ', m2.spike_samples, m2.spike_times, m2.spike_clusters, m2.spike_templates, m2.channel_mapping)\n"
             % (case['inp'],))
